@@ -101,73 +101,85 @@ def run_impl(backend, layout):
     return {"ok": out}, dp
 
 
+TAG_MIXED = "mixed-basis-second-gate-not-imported"
+TAG_ORDER = "unsupported-device-rejected-after-property-lookups"
+
+
 def oracle(rec, kind, layout, res, dp):
-    """C20 evaluated directly.  Returns (failure text or None, classification of the case)."""
+    """C20 evaluated directly on the returned object against the raw JSON record.
+    Returns (failure text or None, classification of the case, defect tag or None)."""
     err = res.get("err")
     got = f"raised {err}" if err else "returned normally"
+    # -- rejection clause: "a backend without a supported two-qubit gate or of an unsupported type is rejected with
+    #    ValueError" — for every layout and whatever else the calibration record holds or lacks
     if kind == "other":
-        return (None if err == "ValueError" else f"object of unsupported type is not rejected with ValueError ({got})"), "reject:type"
+        return (None if err == "ValueError" else f"object of unsupported type is not rejected with ValueError ({got})"), "reject:type", None
     if rec["anomalies"]:
-        return None, "outside:anomalous calibration record"
-    if not layout:
-        return None, "outside:empty layout"
-    if any(q < 0 for q in layout):
-        return (None if err else "returned although a label is negative"), "outside:negative label"
-    miss = [q for q in layout if any(q not in rec[m] for m in FIVE)]
-    native = [g for g in rec["basis"] if g in ("ecr", "cx")]
+        return None, "outside:anomalous calibration record", None
+    native = list(dict.fromkeys(g for g in rec["basis"] if g in ("ecr", "cx")))       # supported gates, basis order
     if not native:
         if err == "ValueError":
-            return None, "reject:no ecr/cx in basis"
-        if miss and err == "BackendPropertyError":
-            return None, "outside:no ecr/cx in basis and a requested qubit lacks a calibration value (accessor error is raised first)"
-        if rec["dt"] is None and err == "AttributeError":
-            return None, "outside:no ecr/cx in basis and configuration without dt (AttributeError is raised first)"
-        return f"backend without ecr/cx in its basis is not rejected with ValueError ({got})", "reject:no ecr/cx in basis"
+            return None, "reject:no ecr/cx in basis", None
+        return (f"backend without ecr/cx in its basis is not rejected with ValueError ({got})", "reject:no ecr/cx in basis",
+                TAG_ORDER if err in ("BackendPropertyError", "AttributeError") else None)
+    # -- import clauses: the domain is a non-empty layout of labels whose calibration record is complete
+    if not layout:
+        return None, "outside:empty layout", None
+    if any(q < 0 for q in layout):
+        return (None if err else "returned although a label is negative"), "outside:negative label", None
+    miss = [q for q in layout if any(q not in rec[m] for m in FIVE)]
     if miss:
         return ((None if err else f"returned although qubit {miss[0]} has no complete calibration record"),
                 "outside:a requested qubit lacks a calibration value" if any(q < rec["n"] for q in miss)
-                else "outside:label beyond the device")
+                else "outside:label beyond the device", None)
     if rec["dt"] is None:
-        return None, "outside:configuration without dt"
-    first = native[0]
-    if first not in rec["gate2"]:
-        return None, f"outside:basis names {first} but the properties hold no {first} record"
-    cands = [g for g in dict.fromkeys(native) if g in rec["gate2"]]
-    if any(i == j for g in cands for (i, j) in rec["gate2"][g]):
-        return None, "outside:self-coupled pair in the calibration record"
-    cls = "in-domain" if len(set(native)) == 1 else "in-domain:mixed cx/ecr basis (either gate accepted)"
+        return None, "outside:configuration without dt", None
+    norec = [g for g in native if g not in rec["gate2"]]
+    if norec:
+        return None, f"outside:basis names {norec[0]} but the properties hold no {norec[0]} record", None
+    if any(i == j for g in native for (i, j) in rec["gate2"][g]):
+        return None, "outside:self-coupled pair in the calibration record", None
+    cls = "in-domain" if len(native) == 1 else "in-domain:mixed cx/ecr basis"
     if err or dp is None or "ok" not in res:
-        return f"valid backend and layout, but the import {got} / {json.dumps(res)[:120]}", cls
+        return f"valid backend and layout, but the import {got} / {json.dumps(res)[:120]}", cls, None
     for a, m in ATTR:
         xs = list(getattr(dp, a))
         if len(xs) != len(layout):
-            return f"{a} has length {len(xs)}, layout has {len(layout)}", cls
+            return f"{a} has length {len(xs)}, layout has {len(layout)}", cls, None
         for k, q in enumerate(layout):
             if not (xs[k] == rec[m][q]):
-                return f"{a}[{k}]={xs[k]!r} but the backend's value for qubit {q} is {rec[m][q]!r}", cls
+                return f"{a}[{k}]={xs[k]!r} but the backend's value for qubit {q} is {rec[m][q]!r}", cls, None
     if not (len(dp.dt) == 1 and dp.dt[0] == rec["dt"]):
-        return f"dt={list(dp.dt)!r}, backend dt={rec['dt']!r}", cls
+        return f"dt={list(dp.dt)!r}, backend dt={rec['dt']!r}", cls, None
+    # -- tables: every ordered pair (i, j), i, j <= max(layout), that the raw JSON calibrates with a supported gate of the
+    #    basis holds that gate's (gate_error, gate_length); if both gates calibrate the pair either gate's values are
+    #    accepted (the same gate in both tables); every other cell is zero
     M = max(layout)
-    bads = []
-    for g in cands:
-        P, T = np.zeros((M + 1, M + 1)), np.zeros((M + 1, M + 1))
+    Pm, Tm = np.asarray(dp.p_int), np.asarray(dp.t_int)
+    for name, have in (("p_int", Pm), ("t_int", Tm)):
+        if have.shape != (M + 1, M + 1):
+            return f"{name}.shape={have.shape}, expected {(M + 1, M + 1)}", cls, None
+    ok = np.zeros((M + 1, M + 1), dtype=bool)
+    cal = np.zeros((M + 1, M + 1), dtype=bool)
+    for g in native:
+        P, T, mask = np.zeros((M + 1, M + 1)), np.zeros((M + 1, M + 1)), np.zeros((M + 1, M + 1), dtype=bool)
         for (i, j), (e, l) in rec["gate2"][g].items():
             if i <= M and j <= M:
-                P[i, j], T[i, j] = e, l
-        bad = None
-        for name, want in (("p_int", P), ("t_int", T)):
-            have = np.asarray(getattr(dp, name))
-            if have.shape != want.shape:
-                bad = f"{name}.shape={have.shape}, expected {(M + 1, M + 1)}"; break
-            if not np.array_equal(have, want):
-                i, j = [int(v[0]) for v in np.nonzero(have != want)]
-                bad = (f"{name}[{i},{j}]={float(have[i, j])!r} but the backend's {g} value for the ordered pair is "
-                       f"{float(want[i, j])!r}" + ("" if (i, j) in rec["gate2"][g] else " (pair not coupled: zero expected)"))
-                break
-        if bad is None:
-            return None, cls
-        bads.append(bad)
-    return " | ".join(bads), cls
+                P[i, j], T[i, j], mask[i, j] = e, l, True
+        ok |= mask & (Pm == P) & (Tm == T)
+        cal |= mask
+    ok |= ~cal & (Pm == 0) & (Tm == 0)
+    if ok.all():
+        return None, cls, None
+    i, j = [int(v[0]) for v in np.nonzero(~ok)]
+    have = f"p_int[{i},{j}]={float(Pm[i, j])!r}, t_int[{i},{j}]={float(Tm[i, j])!r}"
+    if not cal[i, j]:
+        return f"{have} but no supported gate of the basis calibrates the ordered pair ({i},{j}): zero expected", cls, None
+    gs = [g for g in native if (i, j) in rec["gate2"][g]]
+    want = ", ".join(f"{g}: gate_error={float(rec['gate2'][g][(i, j)][0])!r}, gate_length={float(rec['gate2'][g][(i, j)][1])!r}" for g in gs)
+    tag = TAG_MIXED if len(native) > 1 and native[0] not in gs and Pm[i, j] == 0 and Tm[i, j] == 0 else None
+    return (f"{have} but the backend calibrates the ordered pair ({i},{j}) with {want}"
+            + (f" (basis {native}: only {native[0]} was imported)" if tag else ""), cls, tag)
 
 
 # ------------------------------------------------------------------------------------------------------------------
@@ -329,6 +341,10 @@ def designed():
          [[0, 1, 2, 3], [3], [0]]),
         ("mixed basis ecr before cx", synth(4, std + ["ecr", "cx"], {"cx": [(0, 1), (1, 0)], "ecr": [(1, 2), (3, 2)]}),
          [[0, 1, 2, 3], [2, 0]]),
+        ("mixed basis, pair (0,1) calibrated with both gates", synth(3, ["cx", "ecr"] + std, {"cx": [(0, 1), (1, 0)], "ecr": [(0, 1), (1, 2)]}),
+         [[0, 1, 2], [2], [1]]),
+        ("mixed basis ecr first, pair (0,1) calibrated with both gates", synth(3, std + ["ecr", "cx"], {"cx": [(0, 1), (1, 0)], "ecr": [(0, 1), (1, 2)]}),
+         [[0, 1, 2], [2, 0]]),
         ("basis names ecr, properties hold only cx", synth(3, ["ecr"] + std, {"cx": LINE(3)}), [[0, 1], [2]]),
         ("ecr records present but basis is cx", synth(3, std + ["cx", "reset"], {"cx": LINE(3), "ecr": [(0, 2)]}),
          [[0, 1, 2], [2, 0]]),
@@ -436,8 +452,8 @@ def layouts_for(rng, n, rec, budget):
 
 # ------------------------------------------------------------------------------------------------------------------
 
-def shrink_layout(scr, spec, layout):
-    """drop labels while the oracle keeps failing (bounded number of re-executions)"""
+def shrink_layout(scr, spec, layout, tag=None):
+    """drop labels while the oracle keeps failing in the same way (bounded number of re-executions)"""
     tries = 0
     cur = list(layout)
     changed = True
@@ -448,7 +464,8 @@ def shrink_layout(scr, spec, layout):
             tries += 1
             b, rec = build(scr, spec)
             res, dp = run_impl(b, cand)
-            if oracle(rec, spec["kind"], cand, res, dp)[0]:
+            o = oracle(rec, spec["kind"], cand, res, dp)
+            if o[0] and o[2] == tag:
                 cur, changed = cand, True
                 break
             if tries >= 40:
@@ -542,14 +559,14 @@ def _run(ctx, lean, rng, scr):
     for idx, (s, L, fam, rec, b) in enumerate(cases + neg):
         res, dp = run_impl(b, L)
         ctx.count()
-        bad, cl = oracle(rec, s["kind"], L, res, dp)
+        bad, cl, tag = oracle(rec, s["kind"], L, res, dp)
         classes_seen[cl] = classes_seen.get(cl, 0) + 1
         fam_hist[fam] = fam_hist.get(fam, 0) + 1
         oc = res.get("err") or ("ok" if "ok" in res else "uncanonical")
         out_hist[oc] = out_hist.get(oc, 0) + 1
         len_hist[len(L)] = len_hist.get(len(L), 0) + 1
         if bad:
-            fails.append((s, L, fam, bad, cl))
+            fails.append((s, L, fam, bad, cl, tag))
         if idx < len(cases):
             impl.append(res)
             reqs.append(request(rec, s["kind"], L))
@@ -579,22 +596,22 @@ def _run(ctx, lean, rng, scr):
     for name, d in devices.items():
         oc = per_dev_outcome.get(name, {})
         d["outcomes"] = oc
-        nat = d["native_in_basis"]
+        nat = list(dict.fromkeys(d["native_in_basis"]))
         if not nat:
-            d["status"] = "rejected (ValueError): basis has neither ecr nor cx — as the statement demands"
+            d["status"] = ("unsupported (basis has neither ecr nor cx): must be rejected with ValueError for every layout; observed "
+                           + ", ".join(f"{k} x{v}" for k, v in sorted(oc.items())))
         elif "ok" not in oc:
-            d["status"] = ("outside the statement: " + ("calibration predates the x gate (no `x` record for any qubit)" if not d["x_records"]
+            d["status"] = ("outside the import clauses: " + ("calibration predates the x gate (no `x` record for any qubit)" if not d["x_records"]
                            else "no layout loads") + f"; every layout ends in {sorted(oc)}; the model predicts the same exception")
-        elif len(set(nat)) > 1:
-            other = [g for g in nat if g != nat[0]][0]
-            d["status"] = (f"loads; MIXED basis {nat}: the code takes the first of the two in basis order ({nat[0]}); the "
-                           f"{d['two_qubit_records'].get(other, 0)} ordered pairs calibrated with {other} stay zero — the statement's "
-                           "'native two-qubit gate' is ambiguous here, the oracle accepts either gate, the correspondence pins the choice")
+        elif len(nat) > 1:
+            d["status"] = (f"loads; MIXED basis {nat}: " + ", ".join(f"{d['two_qubit_records'].get(g, 0)} ordered pairs calibrated with {g}" for g in nat)
+                           + "; the oracle demands the values of every calibrated pair whichever of the two gates calibrates it (defect D25 on "
+                           "the unrepaired code: only the first gate of the basis was imported)")
         else:
             d["status"] = "loads: every clause of the statement checked against the raw JSON"
-        if "BackendPropertyError" in oc and ("ok" in oc or not nat):
+        if "BackendPropertyError" in oc and "ok" in oc:
             d["status"] += (f"; {oc['BackendPropertyError']} layout(s) naming a qubit without a complete calibration record or beyond "
-                            "the device end in BackendPropertyError (raised before the two-qubit-gate check)")
+                            "the device end in BackendPropertyError (outside the statement; predicted by the model)")
     cov = ctx.coverage
     cov["distinct_nontrivial"] = len(nontrivial)
     cov["rule"] = ("case = (device, backend type, layout). Devices: the %d bundled fake backends (every one, with 2-9+ layouts: "
@@ -628,12 +645,15 @@ def _run(ctx, lean, rng, scr):
             ctx.sample({"family": fam, "device": s.get("name") or s.get("label") or "synthetic", "kind": s["kind"], "layout": L,
                         "impl": json.dumps(impl[i])[:300]})
     cov["remarks"] = [
-        "R-C20-a (not claimed as a violation): on a device whose basis lists both cx and ecr (FakeCairoV2: 12 cx pairs, 14 ecr "
-        "pairs) only the first of the two in basis order is imported; the pairs calibrated with the other gate get error 0 and "
-        "duration 0.",
-        "R-C20-b (not claimed as a violation): the two-qubit-gate check runs after the per-qubit lookups, so an unsupported device "
-        "is rejected with BackendPropertyError instead of ValueError when the layout names a qubit without a complete calibration "
-        "record (FakeKingston, qubit 146: no T1/T2) or beyond the device; theorem error_order states the precedence.",
+        "D25 (defect, both parts repaired by notes/fixes/D25-mixed-two-qubit-basis.diff; the model follows the repaired code): "
+        "(a) on a device whose basis lists both cx and ecr (FakeCairoV2: 12 cx pairs, 14 ecr pairs) the unrepaired code imports only the "
+        "first of the two in basis order, the pairs calibrated with the other gate get error 0 and duration 0; (b) the unrepaired code "
+        "tests for a supported two-qubit gate after the per-qubit lookups, so an unsupported device is rejected with "
+        "BackendPropertyError / AttributeError instead of ValueError when the layout names a qubit without a complete calibration record "
+        "(FakeKingston, qubit 146: no T1/T2), a label beyond the device, or the configuration has no dt.",
+        "on a pair calibrated with BOTH supported gates of a mixed basis the oracle accepts either gate's values (the same gate in "
+        "both tables); the model and the correspondence pin the choice: the gate that comes first in the basis (theorem table_spec, `calib`).",
+        "two-qubit records of a gate that is not in basis_gates are not 'native' and are not imported (designed corpus).",
         "the guard `max_qubit > 1` only matters for a self-coupled pair (0,0), which no device has (table_spec vs "
         "table_spec_no_self_pair); exercised by the designed corpus."]
     cov["trusted_base"] += [
@@ -649,21 +669,38 @@ def _run(ctx, lean, rng, scr):
     ctx.assumptions += [
         "layout labels are natural numbers; a two-qubit gate record couples two distinct qubits (hypothesis of "
         "table_spec_no_self_pair; true of all bundled devices, checked on the raw JSON on every run)",
-        "'the backend's native two-qubit gate' is read as: the first entry of basis_gates that is ecr or cx (native_gate_spec); "
-        "for all bundled devices but FakeCairoV2 the basis holds exactly one of the two",
-        "devices whose calibration has no `x` gate record (9 bundled u1/u2/u3 devices) and layouts naming a qubit without a "
-        "complete record are outside the statement; the check still requires the model to predict the exception raised"]
+        "'the backend's native two-qubit gate values of an ordered pair' are read as: the gate_error / gate_length the properties hold "
+        "for the pair under a supported gate (ecr, cx) that basis_gates lists (`calib`, calib_eq_some_iff / calib_eq_none_iff)",
+        "for a SUPPORTED device, devices whose calibration has no `x` gate record (10 bundled u1/u2/u3 devices), layouts naming a qubit "
+        "without a complete record or beyond the device, empty layouts, a configuration without dt and a basis naming ecr/cx without "
+        "any such record are outside the import clauses; the check still requires the model to predict the exception raised. The "
+        "rejection clause (unsupported type / no ecr, cx in the basis => ValueError) is evaluated for every layout and record"]
     # ---- decide
-    report = fails[:2] + [f for f in fails[2:] if f[0]["src"] == "bundled"][:2]
-    for s, L, fam, bad, cl in report or fails[:2]:
-        Ls = shrink_layout(scr, s, L) if len(L) > 1 else L
+    # one representative per kind of failure (defect tag), bundled devices and in-device layouts first; then a few more
+    def rank(f):
+        s, L = f[0], f[1]
+        n = json.dumps(s.get("name") or "")
+        return (s["src"] != "bundled", s["kind"] != "fake", any(q >= 200 for q in L), len(L), n)
+    by_tag = {}
+    for f in fails:
+        by_tag.setdefault(f[5], []).append(f)
+    report = []
+    for tag, fl in by_tag.items():
+        fl = sorted(fl, key=rank)
+        if tag == TAG_ORDER:                       # prefer a layout inside the device (a qubit with a calibration hole)
+            fl = sorted(fl, key=lambda f: (f[0]["src"] != "bundled", f[2] != "bundled:incomplete_qubit") + rank(f))
+        report += fl[:2 if tag else 4]
+    cov["oracle_failures_by_defect"] = {str(t): len(fl) for t, fl in by_tag.items()}
+    for s, L, fam, bad, cl, tag in report:
+        Ls = shrink_layout(scr, s, L, tag) if len(L) > 1 else L
         if Ls != L:
             b, rec = build(scr, s)
             res, dp = run_impl(b, Ls)
             bad = oracle(rec, s["kind"], Ls, res, dp)[0] or bad
         dev = s.get("name") or s.get("label") or "synthetic"
-        sig = {"kind": "oracle", "device": dev, "backend_type": s["kind"], "class": cl.split(":")[0]}
-        rp = {"spec": {k: v for k, v in s.items()}, "layout": Ls, "original_layout": L, "failure": bad, "classification": cl}
+        sig = {"kind": "oracle", "defect": tag, "device": dev, "backend_type": s["kind"], "class": cl.split(":")[0]}
+        rp = {"spec": {k: v for k, v in s.items()}, "layout": Ls, "original_layout": L, "failure": bad, "classification": cl,
+              "defect": tag}
         ctx.violation(sig, rp, f"load_from_backend({dev}, kind={s['kind']}, layout={Ls}): {bad}")
     if not fails:
         if mism:
@@ -690,7 +727,7 @@ def replay(ctx, path):
         s, L = rp["spec"], rp["layout"]
         b, rec = build(scr, s)
         res, dp = run_impl(b, L)
-        bad, cl = oracle(rec, s["kind"], L, res, dp)
+        bad, cl, _tag = oracle(rec, s["kind"], L, res, dp)
         print("device:", s.get("name") or s.get("label") or "synthetic", "kind:", s["kind"], "layout:", L)
         print("implementation:", json.dumps(res)[:800])
         print("classification:", cl); print("oracle:", bad or "holds")
